@@ -178,6 +178,19 @@ func (w *vWorld) applyCred(q *vReq, cred map[string]interface{}) {
 			// minted a month ago with a year to live (automation certificates are long-lived): as good as a fresh one
 			leaf = w.agedRoleCert(cn, vNetblocks(), 30*24*time.Hour)
 		}
+		if variant == "inside_expired" || variant == "inside_notyet" {
+			// presented on a connection that has been open since the certificate was good (or: a clock that jumped) - the
+			// chain was verified then; the certificate is not valid NOW
+			for _, e := range leaf.Extensions {
+				if e.Id.Equal(vOidIPDelegation) {
+					if variant == "inside_expired" {
+						leaf = w.craftedRoleCertAt(cn, e.Value, time.Now().Add(-48*time.Hour), time.Now().Add(-time.Minute))
+					} else {
+						leaf = w.craftedRoleCertAt(cn, e.Value, time.Now().Add(10*time.Minute), time.Now().Add(24*time.Hour))
+					}
+				}
+			}
+		}
 		if variant == "loopback_xff" {
 			// netblocks without 127.0.0.0/8: a local proxy (or anything else on the host) is not inside
 			leaf = w.roleCert(cn, vNetblocks()[:1])
